@@ -240,7 +240,7 @@ structure OpSteps (cfg : Config) (block : SignedBlock) (F : Fork) (Inv : Nat →
   payload : ∀ ctx payload, block.execution_payload = some payload →
     Step (fun k => Inv k ctx) false [()] (fun st _ => Block.process_execution_payload cfg st block payload)
       (fun st _ => processExecutionPayload cfg st block payload)
-  withdrawals : ∀ ctx payload, block.execution_payload = some payload →
+  withdrawals : F ≥ .capella → ∀ ctx payload, block.execution_payload = some payload →
     Step (fun k => Inv k ctx) false [()] (fun st _ => Block.process_withdrawals cfg st payload) (fun st _ => processWithdrawals cfg st payload)
   randao : ∀ ctx, Step (fun k => Inv k ctx) false [()] (fun st _ => Block.process_randao cfg st block) (fun st _ => processRandaoReveal cfg ctx st block)
   eth1 : ∀ ctx, Step (fun k => Inv k ctx) false [()] (fun st _ => Block.process_eth1_data cfg st block) (fun st _ => processEth1Vote cfg st block.eth1_data)
@@ -680,7 +680,7 @@ theorem processBlock_sim {cfg : Config} {block : SignedBlock} {F : Fork} {Inv : 
     | none => exact sim_err _
     | some payload =>
       simp only [ofOpt, res_bind_ok, res_bind_assoc]
-      obtain ⟨w1, w1i⟩ := (H.withdrawals ctx payload hpl).unit _ s1 i1
+      obtain ⟨w1, w1i⟩ := (H.withdrawals (by decide) ctx payload hpl).unit _ s1 i1
       show Sim (Block.process_withdrawals cfg s1 payload >>= _ >>= _) _
       rw [bind_assoc]
       apply Sim.bind w1
@@ -695,7 +695,7 @@ theorem processBlock_sim {cfg : Config} {block : SignedBlock} {F : Fork} {Inv : 
     | none => exact sim_err _
     | some payload =>
       simp only [ofOpt, res_bind_ok, res_bind_assoc]
-      obtain ⟨w1, w1i⟩ := (H.withdrawals ctx payload hpl).unit _ s1 i1
+      obtain ⟨w1, w1i⟩ := (H.withdrawals (by decide) ctx payload hpl).unit _ s1 i1
       show Sim (Block.process_withdrawals cfg s1 payload >>= _ >>= _) _
       rw [bind_assoc]
       apply Sim.bind w1
@@ -759,7 +759,7 @@ theorem processBlock_inv {cfg : Config} {block : SignedBlock} {F : Fork} {Inv : 
           | some payload =>
             rw [hpl] at h
             simp only [ofOpt, res_bind_ok, res_bind_assoc] at h
-            obtain ⟨_, w1i⟩ := (H.withdrawals ctx payload hpl).unit _ s1 i1
+            obtain ⟨_, w1i⟩ := (H.withdrawals (by decide) ctx payload hpl).unit _ s1 i1
             cases hw : processWithdrawals cfg s1 payload with
             | ok s2 =>
               rw [hw] at h
@@ -780,7 +780,7 @@ theorem processBlock_inv {cfg : Config} {block : SignedBlock} {F : Fork} {Inv : 
           | some payload =>
             rw [hpl] at h
             simp only [ofOpt, res_bind_ok, res_bind_assoc] at h
-            obtain ⟨_, w1i⟩ := (H.withdrawals ctx payload hpl).unit _ s1 i1
+            obtain ⟨_, w1i⟩ := (H.withdrawals (by decide) ctx payload hpl).unit _ s1 i1
             cases hw : processWithdrawals cfg s1 payload with
             | ok s2 =>
               rw [hw] at h
